@@ -1,12 +1,15 @@
 (* C08 — uniqueness is reported truthfully and a sole owner can reclaim its buffer.
    Pinned statements over M2's representation functions: static and owner-backed handles are never unique; try_into_mut
    returns Err (leaving everything untouched) exactly when is_unique answers false and is the conversion otherwise.
-   "is_unique = true iff no other handle holds the storage" needs the counting invariant of M2 (not proved yet): it is
-   evaluated directly on the implementation for every live handle after every step (kinds c08-is-unique, c08-try-into-mut,
-   c08-sole-owner-reclaim). *)
+   From the counting invariant of M2 (C02) and UniqueLaws.v: for EVERY heap representation (promotable even/odd with or without a
+   control block, shared, frozen BytesMut) is_unique() is true exactly when one handle holds the storage; a unique Bytes converts to
+   BytesMut in place (same storage, same offset, same length, no byte of any storage changed); an empty BytesMut that is alone on
+   its allocation gets `true` from try_reclaim(n) for every n up to the allocation size, with capacity >= n afterwards.
+   The same three facts are evaluated on the implementation for every live handle after every step (kinds c08-is-unique,
+   c08-try-into-mut, c08-sole-owner-reclaim). *)
 From stdpp Require Import gmap.
 From Coq Require Import NArith.
-From BV Require Import Base Heap HeapLaws HeapWF HeapWFOps HeapWFMain.
+From BV Require Import Base Heap HeapLaws HeapWF HeapWFOps HeapWFMain HeapFrame RefineM1 ZeroCopy UniqueLaws.
 
 Theorem C08_static_owned_never_unique : forall k o l arc s e,
   bytes_is_unique_rep (HB k o l VStatic arc) s e = OK false s e /\ bytes_is_unique_rep (HB k o l VOwned arc) s e = OK false s e.
@@ -24,7 +27,21 @@ Theorem C08_is_unique_iff_sole_holder : forall orcs n s h k ofs len arc b s' e e
   bytes_is_unique_rep (HB (Some k) ofs len VShared arc) s e = OK b s' e' -> (b = true <-> refs (hs s) k = 1%nat).
 Proof. intros orcs n s h k ofs len arc b s' e e' Hr. apply wf_is_unique_iff_sole. by eapply reach_wf. Qed.
 
+Theorem C08_is_unique_iff_sole_holder_every_representation : forall orcs n s h k ofs len vt arc b s' e e', reach orcs n s ->
+  hs s !! h = Some (HB (Some k) ofs len vt arc) -> heap_vt vt = true ->
+  bytes_is_unique_rep (HB (Some k) ofs len vt arc) s e = OK b s' e' -> (b = true <-> refs (hs s) k = 1%nat).
+Proof. intros orcs n s h k ofs len vt arc b s' e e' Hr. apply is_unique_iff_sole_all. by eapply reach_wf. Qed.
+Theorem C08_unique_converts_in_place : forall orcs n s h x v s1 e e1, reach orcs n s -> hs s !! h = Some x -> bytes_is_unique_rep x s e = OK true s e ->
+  bytes_into_mut_rep x s e = OK v s1 e1 -> dsame nK s s1 /\ stor v = stor x /\ h_ofs v = h_ofs x /\ h_len v = h_len x.
+Proof. intros orcs n s h x v s1 e e1 Hr. apply unique_into_mut_in_place; [by eapply reach_wf|by eapply reach_dlen]. Qed.
+Theorem C08_sole_empty_reclaims_whole_allocation : forall orc n k o c kd s e x' b s1 e1 st, typed (sts s) (HM k o 0 c kd) -> sts s !! k = Some st ->
+  (match kd with MVec _ => True | MArc => exists oc, s_ctrl st = CSharedV (s_size st) oc 1 end) -> (n <= s_size st)%N -> (s_size st <= usize_max)%N ->
+  m_try_reclaim orc n (HM k o 0 c kd) s e = OK (x', b) s1 e1 -> b = true /\ exists k1 o1 c1 kd1, x' = HM k1 o1 0 c1 kd1 /\ (n <= c1)%N.
+Proof. exact sole_empty_reclaims. Qed.
 Print Assumptions C08_static_owned_never_unique.
 Print Assumptions C08_try_into_mut_err.
 Print Assumptions C08_try_into_mut_ok.
 Print Assumptions C08_is_unique_iff_sole_holder.
+Print Assumptions C08_is_unique_iff_sole_holder_every_representation.
+Print Assumptions C08_unique_converts_in_place.
+Print Assumptions C08_sole_empty_reclaims_whole_allocation.
